@@ -183,6 +183,8 @@ def run_shard(spec, rec):
     name = f"request-configurations[{spec['variant']}]"
     rec.space(name, spec["total"], 0)
     done = 0
+    if spec["variant"] in ("B", "R1"):
+        prelude(rec)
     for i in range(spec["start"], spec["start"] + spec["n"]):
         # requests on other grid families in between: what an earlier request asked for must not
         # influence the class of later results (no state may be shared between calls)
@@ -200,6 +202,25 @@ def run_shard(spec, rec):
 
 
 _pool: list = []
+
+
+def prelude(rec):
+    """What a session may have done before the first request: droplets of every class created by hand in their
+    simplest form (perturbed classes without amplitudes) and drawn once.  Nothing of this may influence the class
+    or the shape of droplets that are located later."""
+    import pde
+    from droplets import droplets
+
+    try:
+        for cls, pos, grid in [(droplets.PerturbedDroplet2D, [4.0, 4.0], pde.UnitGrid([8, 8])),
+                               (droplets.PerturbedDroplet3D, [3.0, 3.0, 3.0], pde.UnitGrid([6, 6, 6])),
+                               (droplets.PerturbedDroplet3DAxisSym, [0.0, 0.0, 3.0], pde.CylindricalSymGrid(4.0, (0.0, 6.0), (4, 6))),
+                               (droplets.DiffuseDroplet, [3.0], pde.UnitGrid([6])),
+                               (droplets.SphericalDroplet, [3.0, 3.0], pde.UnitGrid([6, 6]))]:
+            cls(pos, 2.0).get_phase_field(grid)
+        rec.hit("prelude:droplets-created-by-hand-first")
+    except Exception as e:  # noqa: BLE001
+        rec.harness_error("prelude", e)
 
 
 def interfere(i, rec):
@@ -230,5 +251,7 @@ def interfere(i, rec):
 
 
 def replay(v, rec):
+    if v["case"].get("variant") in ("B", "R1"):
+        prelude(rec)  # the process history of these variants
     with rec.case(v["kind"], v["case"]):
         run(v["case"], rec)
